@@ -69,6 +69,32 @@ pub fn generate(family: &str, seed: u64, n: usize) -> Vec<String> {
                 out.push(gen_opt_req(&mut rng, "run"));
             }
         }
+        "pair" => {
+            while out.len() < n {
+                out.push(gen_pair_req(&mut rng));
+            }
+        }
+        "state" => {
+            for g in GROUPS.iter() {
+                for sh in ["poly 3", "poly 4", "poly 6", "circle", "trimer 3fe466dbd8f2d3a9 405e000000000000 3ff0000000000000"].iter() {
+                    out.push(format!("state score hard {} {} init", sh, g));
+                    out.push(format!("state params hard {} {} init", sh, g));
+                    out.push(format!("state label hard {} {} init", sh, g));
+                }
+                for sh in ["ljcircle", "ljtrimer 3fe466dbd8f2d3a9 405e000000000000 3ff0000000000000"].iter() {
+                    out.push(format!("state score lj {} {} init", sh, g));
+                    out.push(format!("state params lj {} {} init", sh, g));
+                }
+            }
+            while out.len() < n {
+                out.push(gen_state_req(&mut rng));
+            }
+        }
+        "optc" => {
+            while out.len() < n {
+                out.push(format!("opt run {} crystal {}", gen_cfg_small(&mut rng), gen_state_desc(&mut rng, true)));
+            }
+        }
         "tables" => {
             for v in packing::wallpaper::WallpaperGroups::variants().iter() {
                 out.push(format!("tables group {}", v));
@@ -683,4 +709,143 @@ pub fn gen_scripted(rng: &mut Rng) -> String {
 
 fn gen_opt_req(rng: &mut Rng, op: &str) -> String {
     format!("opt {} {} {}", op, gen_cfg(rng), gen_scripted(rng))
+}
+
+// ---------------------------------------------------------------- pair / state
+
+pub fn gen_hard_shape(rng: &mut Rng) -> String {
+    match rng.below(10) {
+        0..=3 => format!("poly {}", *rng.pick(&[3usize, 4, 5, 6, 7, 8, 12])),
+        4 => {
+            let n = 3 + rng.usize(6);
+            let rs: Vec<String> = (0..n).map(|_| fhex(rng.range(0.6, 1.0))).collect();
+            format!("radial {} {}", n, rs.join(" "))
+        }
+        5 | 6 => "circle".to_string(),
+        _ => gen_trimer(rng, "trimer"),
+    }
+}
+
+pub fn gen_trimer(rng: &mut Rng, tag: &str) -> String {
+    let (r, a, d) = match rng.below(4) {
+        0 => (0.637556, 120.0, 1.0),
+        1 => (0.7, *rng.pick(&[120.0, 180.0, 90.0]), 1.0),
+        _ => (rng.range(0.3, 1.2), rng.range(40.0, 180.0), rng.range(0.6, 1.6)),
+    };
+    format!("{} {} {} {}", tag, fhex(r), fhex(a), fhex(d))
+}
+
+pub fn gen_lj_shape(rng: &mut Rng) -> String {
+    if rng.chance(1, 3) {
+        "ljcircle".to_string()
+    } else {
+        gen_trimer(rng, "ljtrimer")
+    }
+}
+
+/// a rigid motion or reflection as a 9-vector with projective row 0 0 1 or 0 0 0
+pub fn gen_placement(rng: &mut Rng, spread: f64) -> [f64; 9] {
+    let a = gen_angle(rng);
+    let (s, c) = a.sin_cos();
+    let mirror = if rng.chance(1, 3) { -1.0 } else { 1.0 };
+    [c, -s * mirror, rng.range(-spread, spread), s, c * mirror, rng.range(-spread, spread), 0.0, 0.0, if rng.chance(1, 2) { 1.0 } else { 0.0 }]
+}
+
+fn gen_pair_req(rng: &mut Rng) -> String {
+    match rng.below(12) {
+        0 => {
+            let v: Vec<String> = (0..8).map(|_| fhex(match rng.below(3) { 0 => (rng.below(5) as f64) - 2.0, _ => rng.range(-2.0, 2.0) })).collect();
+            format!("pair lineint {}", v.join(" "))
+        }
+        1 => {
+            let v: Vec<String> = (0..2).map(|_| format!("{} {} {}", fhex(rng.range(-2.0, 2.0)), fhex(rng.range(-2.0, 2.0)), fhex(rng.range(0.1, 1.5)))).collect();
+            format!("pair atomint {}", v.join(" "))
+        }
+        2 | 3 => {
+            // LJ2 energies over many orders of magnitude in r, sigma, epsilon; cut and uncut
+            let r = rng.logmag(-2.0, 1.5);
+            let th = rng.range(0.0, 6.28);
+            let mk = |rng: &mut Rng, x: f64, y: f64| format!("{} {} {} {} {}", fhex(x), fhex(y), fhex(rng.logmag(-1.0, 1.0)), fhex(rng.logmag(-2.0, 2.0)), if rng.chance(1, 2) { "-".to_string() } else { fhex(rng.range(0.5, 5.0)) });
+            let (x0, y0) = (rng.range(-3.0, 3.0), rng.range(-3.0, 3.0));
+            format!("pair lj2 {} {}", mk(rng, x0, y0), mk(rng, x0 + r * th.cos(), y0 + r * th.sin()))
+        }
+        4 => format!("pair items {}", if rng.chance(1, 2) { gen_hard_shape(rng) } else { gen_lj_shape(rng) }),
+        5 => format!("pair area {}", if rng.chance(1, 6) { format!("poly {}", rng.below(70)) } else { gen_hard_shape(rng) }),
+        6 => format!("pair radius {}", if rng.chance(1, 2) { gen_hard_shape(rng) } else { gen_lj_shape(rng) }),
+        7 => format!("pair transform {} {}", if rng.chance(1, 2) { gen_hard_shape(rng) } else { gen_lj_shape(rng) }, mat9(gen_placement(rng, 3.0))),
+        8 | 9 | 10 => {
+            // overlap decisions: placements at distances around contact
+            let sh = gen_hard_shape(rng);
+            let a = gen_placement(rng, 1.0);
+            let mut b = gen_placement(rng, 1.0);
+            let d = match rng.below(3) { 0 => rng.range(0.0, 1.0), 1 => rng.range(1.0, 2.5), _ => rng.range(0.0, 4.0) };
+            let th = rng.range(0.0, 6.28);
+            b[2] = a[2] + d * th.cos();
+            b[5] = a[5] + d * th.sin();
+            format!("pair intersects {} {} {}", sh, mat9(a), mat9(b))
+        }
+        _ => {
+            let sh = gen_lj_shape(rng);
+            let a = gen_placement(rng, 1.0);
+            let mut b = gen_placement(rng, 1.0);
+            let d = rng.range(0.5, 6.0);
+            let th = rng.range(0.0, 6.28);
+            b[2] = a[2] + d * th.cos();
+            b[5] = a[5] + d * th.sin();
+            format!("pair energy {} {} {}", sh, mat9(a), mat9(b))
+        }
+    }
+}
+
+/// `<kind> <shape> <group> <L R A> 1 <x y angle>`; cells sized relative to the shape so that the
+/// shell count stays small; `dense` biases towards near-contact cells.
+pub fn gen_state_desc(rng: &mut Rng, dense: bool) -> String {
+    let pi = std::f64::consts::PI;
+    let lj = rng.chance(1, 3);
+    let shape = if lj { gen_lj_shape(rng) } else { gen_hard_shape(rng) };
+    let g = *rng.pick(&GROUPS);
+    let n: f64 = match g { "p1" => 1.0, "p2" | "p1m1" | "p1g1" => 2.0, _ => 4.0 };
+    // side lengths in units of a typical shape size (enclosing radius ~ 1..2)
+    let length = if dense { rng.range(1.2, 3.5) * n.sqrt() } else { rng.range(1.0, 9.0) * n.sqrt() };
+    let ratio = match rng.below(5) { 0 => 1.0, 1 => rng.range(0.3, 0.5), _ => rng.range(0.5, 1.0) };
+    let mono = g == "p1" || g == "p2";
+    let angle = if mono { match rng.below(4) { 0 => pi / 2.0, 1 => pi / 6.0, _ => rng.range(pi / 6.0, pi / 2.0) } } else { pi / 2.0 };
+    let a = match rng.below(5) { 0 => 0.0, 1 => 2.0 * pi, _ => rng.range(0.0, 2.0 * pi) };
+    format!(
+        "{} {} {} {} {} {} 1 {} {} {}",
+        if lj { "lj" } else { "hard" },
+        shape,
+        g,
+        fhex(length),
+        fhex(ratio),
+        fhex(angle),
+        fhex(gen_site_coord(rng)),
+        fhex(gen_site_coord(rng)),
+        fhex(a)
+    )
+}
+
+fn gen_state_req(rng: &mut Rng) -> String {
+    let op = match rng.below(10) {
+        0..=4 => "score",
+        5 => "relpos",
+        6 => "cartpos",
+        7 => "basis",
+        8 => "params",
+        _ => "label",
+    };
+    let dense = rng.chance(1, 2);
+    format!("state {} {}", op, gen_state_desc(rng, dense))
+}
+
+/// small optimiser configurations for runs on real states
+pub fn gen_cfg_small(rng: &mut Rng) -> String {
+    let steps = *rng.pick(&[0u64, 5, 20, 40, 60, 100]);
+    let inner = *rng.pick(&[0u64, 1, 7, 10, 20, 1000]);
+    let kt_start = *rng.pick(&[0.0, 0.0, 0.1, 0.01, 1.0]);
+    let kt_finish = Some(*rng.pick(&[0.001, 0.0, 0.05]));
+    let kt_ratio = *rng.pick(&[None, None, Some(0.0), Some(0.1), Some(2.0)]);
+    let max_step = *rng.pick(&[0.01, 0.001, 0.1, 0.5, 1.0]);
+    let conv = *rng.pick(&[None, None, Some(1e-3), Some(10.0)]);
+    format!("{} {} {} {} {} {} {} {}", steps, inner, fhex(kt_start), ofh(kt_finish), ofh(kt_ratio), fhex(max_step), rng.below(1000), ofh(conv))
 }
